@@ -1404,3 +1404,93 @@ func sortedKeys(m map[string]bool) []string {
 	sort.Strings(o)
 	return o
 }
+
+// ---- C11.R14: instruction sizes never shrink while the assembler iterates ----
+//
+// Assemble repeats Pass until no address moves and panics ("positions did not settle" → SystemError) if that does not
+// happen; the reviewed reason it cannot is that an instruction that once needed the EXTENDED_ARG prefix keeps it
+// (OpArg.wide is a latch). The rule: every store to the field that records the width stores `true`, or a disjunction
+// that contains the field's own previous value; it is never recomputed from the current argument alone.
+func runWideLatch(c *Ctx, r *Rep) {
+	p := c.MustPkg("compile")
+	info := p.TypesInfo
+	// the bool fields of compile.OpArg
+	var fields []*types.Var
+	if tn, ok := p.Types.Scope().Lookup("OpArg").(*types.TypeName); ok {
+		if st, ok := tn.Type().Underlying().(*types.Struct); ok {
+			for i := 0; i < st.NumFields(); i++ {
+				if b, ok := st.Field(i).Type().Underlying().(*types.Basic); ok && b.Kind() == types.Bool {
+					fields = append(fields, st.Field(i))
+				}
+			}
+		}
+	}
+	if len(fields) == 0 {
+		r.undecided("compile|OpArg|width latch", token.NoPos, "compile.OpArg has no boolean field recording that the instruction was widened (the assembler's termination argument rests on one)")
+		return
+	}
+	isField := func(e ast.Expr) *types.Var {
+		if sel, ok := unparen(e).(*ast.SelectorExpr); ok {
+			if v, ok := info.Uses[sel.Sel].(*types.Var); ok {
+				for _, f := range fields {
+					if f == v {
+						return v
+					}
+				}
+			}
+		}
+		return nil
+	}
+	n := 0
+	for _, f := range c.Files(p) {
+		for _, d := range f.Decls {
+			fd, ok := d.(*ast.FuncDecl)
+			if !ok || fd.Body == nil {
+				continue
+			}
+			ast.Inspect(fd.Body, func(nd ast.Node) bool {
+				as, ok := nd.(*ast.AssignStmt)
+				if !ok || len(as.Lhs) != len(as.Rhs) {
+					return true
+				}
+				for i, l := range as.Lhs {
+					fv := isField(l)
+					if fv == nil {
+						continue
+					}
+					n++
+					rhs := unparen(as.Rhs[i])
+					ok := false
+					if tv, has := info.Types[rhs]; has && tv.Value != nil && tv.Value.String() == "true" {
+						ok = true
+					}
+					// wide || …  (any disjunct is the field itself on the same base)
+					var disj func(e ast.Expr) bool
+					disj = func(e ast.Expr) bool {
+						e = unparen(e)
+						if be, isB := e.(*ast.BinaryExpr); isB && be.Op == token.LOR {
+							return disj(be.X) || disj(be.Y)
+						}
+						return isField(e) == fv && exprStr(e) == exprStr(l)
+					}
+					if as.Tok == token.ASSIGN && disj(rhs) {
+						ok = true
+					}
+					r.check(ok, fmt.Sprintf("compile|%s|store to %s", declID(p, fd), exprStr(l)), as.Pos(),
+						"the width flag is only ever raised",
+						fmt.Sprintf("`%s = %s` recomputes the width flag instead of latching it: an instruction that was widened can shrink again, sizes are no longer monotone and Assemble's fixpoint can oscillate until it panics \"positions did not settle\" (SystemError for a well-formed, large function)", exprStr(l), exprStr(rhs)))
+				}
+				return true
+			})
+		}
+	}
+	if n == 0 {
+		r.undecided("compile|OpArg|width latch stores", token.NoPos, "no store to the width flag found")
+	}
+}
+
+func init() {
+	register(&Rule{ID: "C11.R14", Prop: "C11", Floor: 1,
+		Doc: "assembler termination: every store to compile.OpArg's width flag stores true or a disjunction containing the flag's previous value (a latch), so instruction sizes never shrink between passes and Assemble's `positions did not settle` panic stays unreachable",
+		Run: runWideLatch})
+}
